@@ -960,7 +960,7 @@ class Recon:
                 else:
                     val = self._e(mctx, v, node, {}, False, depth + 1)
                 if tgt_index is not None:
-                    val = val[1][tgt_index] if val[0] == "tuple" and tgt_index < len(val[1]) else ("sub", val, S.C(tgt_index))
+                    val = self._index_path(val, (tgt_index,), depth)
                 if m.name != "__init__" and S.contains(val, lambda x: isinstance(x, tuple) and len(x) == 3 and x[0] == "p"
                                                        and x[1] == mctx.qual and isinstance(x[2], int) and x[2] >= 1):
                     # stored by an ordinary method from that call's own arguments: what a later reader finds depends on the
